@@ -119,6 +119,9 @@ func positionFinishOffsetsGPOS(buffer *Buffer) {
 
 func applyRecurseGPOS(c *otApplyContext, lookupIndex uint16) bool {
 	gpos := c.font.face.GPOS
+	if int(lookupIndex) >= len(gpos.Lookups) { // not sanitized for contextual formats 2, 3 and chained
+		return false
+	}
 	l := lookupGPOS(gpos.Lookups[lookupIndex])
 	return c.applyRecurseLookup(lookupIndex, l)
 }
